@@ -3,6 +3,8 @@
 Proof: Properties/C20.v (decoder model = Go rune-literal semantics on every valid literal; every spelling decodes).
 Tie R: the two Go copies of the decoder (internal/util/litconv.go and the template in internal/util/gen/golang/litconv.go) are
        compared textually; IntValue/UintValue bodies must be the single strconv calls.
+Tie K: gocc end to end: grammars with every spelling of boundary/random code points and ranges -> accepted, emitted transitions on exactly
+       that code point.
 Tie K: model lit_to_rune vs util.LitToRune (verifdump litconv) vs the GENERATED util.RuneValue (compiled) on every spelling of
        code points (exhaustive in the thorough tier) and on malformed literals; model golit_value vs strconv.Unquote (Go's own
        reading); decimal literals around power-of-two boundaries vs strconv."""
@@ -67,6 +69,59 @@ def source_obligations(ctx):
     ctx.add_obligation("R: generated IntValue/UintValue are single strconv.ParseInt/ParseUint(…, 10, 64) calls", bool(iv and uv), "bodies changed")
 
 
+def end_to_end(ctx, ws, thorough):
+    """gocc itself reads a literal in a GRAMMAR as Go's code point: grammars  tK : <prefix letter> <literal> ;  (and ranges), every
+    spelling of boundary and random code points; gocc must accept them and the emitted transition table must branch on exactly
+    that code point (range) after the prefix letter. Returns (cases, [problem dicts])."""
+    from concurrent.futures import ThreadPoolExecutor
+    rng = ctx.rng
+    cps = [1, 0x09, 0x0A, 0x0D, 0x20, 0x27, 0x5C, 0x7E, 0x7F, 0x80, 0xA0, 0xFF, 0x100, 0x7FF, 0x800, 0xD7FF, 0xE000, 0xFEFF, 0xFFF0, 0xFFFD, 0xFFFE,
+           0xFFFF, 0x10000, 0x1F600, 0x10FFFE, 0x10FFFF, 0]
+    cps += [rng.randrange(0x110000) for _ in range(60 if not thorough else 1500)]
+    cps = [c for c in cps if not (0xD800 <= c <= 0xDFFF)]
+    items = []   # (kind, literal text bytes, lo, hi)
+    for c in cps:
+        for (k, l) in spellings(c):
+            if k == "raw" and c in (0, 0xFEFF, 0x0D):
+                continue
+            items.append((k, l, c, c))
+    for _ in range(40 if not thorough else 600):
+        a, b = sorted([rng.choice(cps), rng.choice(cps)])
+        (ka, la), (kb, lb) = rng.choice(spellings(a)), rng.choice(spellings(b))
+        if (ka == "raw" and a in (0, 0xFEFF, 0x0D)) or (kb == "raw" and b in (0, 0xFEFF, 0x0D)):
+            continue
+        items.append(("range:%s-%s" % (ka, kb), la + b"-" + lb, a, b))
+    letters = "bcdefghijklmnopqrstuvwxyz"
+    groups = [items[i:i + len(letters)] for i in range(0, len(items), len(letters))]
+    problems = []
+
+    def one(gi):
+        grp = groups[gi]
+        text = b"".join(b"t%c : '%c' %s ;\n" % (ord(letters[i]), ord(letters[i]), l) for i, (k, l, lo, hi) in enumerate(grp))
+        rc, out, d = ws.gocc("e2e%d" % gi, text, timeout=60)
+        if rc != 0:
+            return [{"grammar": text.decode("utf-8", "replace"), "reason": "gocc refuses a grammar whose character literals are all valid Go rune "
+                     "literals (exit %s)" % rc, "gocc_output": out[-300:]}]
+        rows = gen.parse_transtab(os.path.join(d, "lexer", "transitiontable.go"))
+        bad = []
+        for i, (k, l, lo, hi) in enumerate(grp):
+            nxt = [nx for (a, b, nx) in rows[0]["cases"] if a <= ord(letters[i]) <= b]
+            if len(nxt) != 1 or nxt[0] < 0:
+                bad.append({"grammar": text.decode("utf-8", "replace"), "reason": "no transition on the prefix letter %r" % letters[i]})
+                continue
+            cases = [(a, b) for (a, b, nx) in rows[nxt[0]]["cases"] if nx >= 0]
+            if cases != [(lo, hi)] or rows[nxt[0]]["default"] != -1:
+                bad.append({"grammar": ("t%s : '%s' " % (letters[i], letters[i])).encode().decode() + l.decode("utf-8", "replace") + " ;",
+                            "literal_hex": l.hex(), "reason": "Go assigns %s to the literal(s); the generated lexer branches on %s after the "
+                            "prefix letter" % ((lo, hi) if lo != hi else lo, cases)})
+        return bad
+
+    with ThreadPoolExecutor(max_workers=12) as ex:
+        for bad in ex.map(one, range(len(groups))):
+            problems += bad
+    return len(items), problems
+
+
 def run(ctx):
     ctx.check_property_file()
     source_obligations(ctx)
@@ -91,6 +146,9 @@ def run(ctx):
     bins, log = ws.build()
     ub = bins.get(("u", "cmd"))
     ctx.add_obligation("generated util package compiles with the driver", ub is not None, log[-300:])
+    n_e2e, e2e_bad = end_to_end(ctx, ws, thorough)
+    ctx.add_obligation("K: gocc reads %d character literals / ranges of generated GRAMMARS (every spelling) as Go's code points: accepted, and "
+                       "the emitted transition table branches on exactly that code point" % n_e2e, not e2e_bad, str(e2e_bad[:2])[:600])
     text = "".join(l.hex() + "\n" for (_, l, _) in cases)
     go = vlib.run_lines([ctx.verifdump, "litconv"], text, timeout=1800)
     mo = vlib.run_lines([ctx.modelrun, "litconv"], text, timeout=3600)
@@ -98,6 +156,9 @@ def run(ctx):
     hist = collections.Counter()
     reported = 0
     disagreements = 0
+    for b in e2e_bad[:2]:
+        ctx.violation(dict(b, kind="property-oracle-on-implementation"))
+        reported += 1
     for i, (k, l, c) in enumerate(cases):
         g_val, g_go = go[i].split(" ")
         m_val, m_go = mo[i].split(" ")
@@ -143,7 +204,7 @@ def run(ctx):
         bad = [(decs[i // 2], r) for i, r in enumerate(res) if r != "SAME"]
         ctx.add_obligation("K: generated IntValue/UintValue = strconv.ParseInt/ParseUint on %d decimal literals" % len(decs), not bad, str(bad[:3]))
     for o in ctx.failed_obligations():
-        if reported < 6:
+        if reported < 6 and not o["name"].startswith("K: gocc reads"):
             ctx.violation({"kind": "proof-obligation-broken", "obligation": o}, found_input=False)
             reported += 1
     nvalid = sum(1 for (_, _, c) in cases if c is not None)
@@ -154,7 +215,7 @@ def run(ctx):
                   "(too few digits, bad digits, surrogates, out of range, wrong quotes, ill-formed UTF-8); non-trivial = the valid literals; "
                   "all cases distinct",
         "samples": [repr(cases[i][1]) for i in (0, len(cases) // 3, len(cases) // 2, nvalid - 1, len(cases) - 1)],
-        "exhaustive": bool(thorough), "spelling_histogram": dict(hist), "decimal_literals": len(decs),
+        "exhaustive": bool(thorough), "spelling_histogram": dict(hist), "decimal_literals": len(decs), "grammar_level_literals": n_e2e,
         "traces_validated_against_impl": len(cases), "disagreements": disagreements,
     }, ["strconv (Unquote, ParseInt, ParseUint) is Go's own semantics and is trusted as the reference",
         "GoLit.golit_value is our reading of the Go specification; it is compared with strconv.Unquote on every case (two implementation "
